@@ -1,3 +1,4 @@
+use crate::connectivity::traits::in_canonical_order;
 use crate::coordinates::{Point, Vector3D};
 use crate::ff::bonds::HarmonicBond;
 use crate::ff::forcefield::EnergyFunction;
@@ -30,7 +31,7 @@ impl RB {
     fn add_bond_stretches(&mut self, molecule: &Molecule) {
         let atoms = molecule.atoms();
 
-        for bond in molecule.bonds() {
+        for bond in in_canonical_order(molecule.bonds()) {
             let i = bond.pair.i;
             let j = bond.pair.j;
             let r0 = atoms[i].covalent_radius() + atoms[j].covalent_radius();
